@@ -138,6 +138,9 @@ used already and asked for triggers that random testing is unlikely to hit):
   - `C17-*`: a new "misc" population (one ExitStack unwound by two tasks, `closing` around a suspending `aclose`, caches
     over generator-based coroutines);
   - and an enumeration bug of the harness itself: C18 / C08 never cancelled at the *first* suspension point (fixed).
+* round 7 (60 changes; 13 of the first 30 missed, the other 30 were met with extensions made from the agents' descriptions):
+  see DESIGN section 13 "Round 7" for the list of extensions; two changes were re-filed under the property whose
+  quantifier they need (`C09-tee-recheck-only-on-exhaustion`, `C08-asend-disabled-only-by-public-aclose`).
 
 | id | change | needs to manifest | detected by its property's check | also caught by |
 |----|--------|-------------------|----------------------------------|----------------|
